@@ -90,6 +90,13 @@ def run(rep, tier):
         from . import c07
         c07.r07k(rep_, prog)
         search.check_combine_types(rep_, prog)
+        from . import c16
+        c16.shared(rep_, prog)
+    for r_, d_ in (('R16a', 'forest index: inverse-pair numbering, off-forest edges first (the coordinates of the support vectors)'),
+                   ('R16b', 'forest index: dimension formula m - n + c and accessors (the number of phases)'),
+                   ('R16c', 'spanning_forest counts one component per outer iteration and 0 only for the graph without vertices'),
+                   ('R16h', 'n, m and the component count are assigned on every path through create_index')):
+        rep.rule(r_, d_, floor=1)
     rep.rule('R02j', 'the saturating sum of the searches is applied in the distance type (no floating -> integral truncation of weights)', floor=4)
     rep.rule('R07k', 'numeric_limits<T>::infinity() only for floating-point T (0 for integral weight types)', floor=0)
     run_rules(rep, tier, RULES, DOCS, extra=extra)
